@@ -143,6 +143,24 @@ func orderPair(res *Result, lc lessCase, S []absSig, omu *sync.Mutex, obs map[[2
 						obs[[2]int{lc.A, lc.B}] = pa < pb
 						omu.Unlock()
 					}
+					// relevance decides before the number of members does: with more goroutines on either side
+					// the strictly less signature still comes first
+					if lc.Less {
+						for _, dup := range []int{lc.A, lc.B} {
+							s2 := &stack.Snapshot{Goroutines: []*stack.Goroutine{
+								{Signature: mkOrderSig(&firstSig), ID: 1, First: true},
+								{Signature: mkOrderSig(&S[lc.B-1]), ID: 2},
+								{Signature: mkOrderSig(&S[lc.A-1]), ID: 3},
+								{Signature: mkOrderSig(&S[dup-1]), ID: 4},
+								{Signature: mkOrderSig(&S[dup-1]), ID: 5},
+							}}
+							a2 := s2.Aggregate(stack.ExactFlags)
+							if len(a2.Buckets) == 3 && bucketPos(a2, 3) > bucketPos(a2, 2) {
+								res.violation(Finding{Property: "C13", Aspect: "counts", What: fmt.Sprintf("S[%d] is strictly less than S[%d], but with three goroutines in the bucket of S[%d] it is shown after it: the number of members overrides relevance", lc.A, lc.B, dup), Case: cs})
+								break
+							}
+						}
+					}
 					var sample interface{}
 					if (lc.A*131+lc.B)%1999 == 0 {
 						sample = map[string]interface{}{"a": lc.A, "b": lc.B, "less": lc.Less}
